@@ -3,6 +3,7 @@ package checks
 import (
 	"fmt"
 	"strings"
+	"verif/internal/absint"
 
 	"verif/internal/ev"
 	"verif/internal/rules"
@@ -14,11 +15,25 @@ func noLoopsBelowStep(cx *Ctx, r *ev.Report, prop string) *rules.DAGResult {
 	d := rules.DAG(cx.P, cx.E.Step)
 	pos := cx.P.Pos(cx.E.Step.Pos())
 	key := prop + "/one-per-step/func=(*CPU).Step"
-	rule := "R-DAG(Step): the call graph below Step is acyclic and every function in it is loop-free"
+	rule := "R-DAG(Step): the call graph below Step is acyclic and every function in it is loop-free - or its loops have a fixed trip count: every summary that interprets the function (all decoder specialisations, the Step rows) followed them concretely to the end"
 	var det []string
-	for _, l := range d.Loops {
+	if len(d.Loops) > 0 && cx.E != nil {
+		// make sure every summary has been computed before the loop log is consulted
+		cx.Arms()
+		cx.stepAnalysis()
+	}
+	bounded := 0
+	for i, l := range d.Loops {
+		if i < len(d.LoopFns) {
+			if n, always := absint.LoopFollowed(d.LoopFns[i]); always {
+				bounded++
+				r.Analysed["bounded_loop:"+d.LoopFns[i].Name()] = fmt.Sprintf("followed concretely in %d interpreted calls", n)
+				continue
+			}
+		}
 		det = append(det, "loop in "+l)
 	}
+	r.Analysed["bounded_loops_below_step"] = bounded
 	for _, c := range d.Cycles {
 		det = append(det, "call cycle "+c)
 	}
